@@ -520,6 +520,16 @@ def replay(prop, path):
     if not ok:
         sys.stdout.write(log[-4000:])
         return 2
+    if meta.get("hang"):
+        # a case on which the library blocked forever: replay it under a time limit
+        try:
+            p = subprocess.run([binary(cfg), "replay", "--file", path, "--prop", prop], env=env(),
+                               timeout=int(os.environ.get("FCV_HANG_CONFIRM_SECS", "60")))
+        except subprocess.TimeoutExpired:
+            print("the library blocks forever on this case (deadlock)")
+            print("VIOLATION property=%s replay=%s" % (prop, path))
+            return 1
+        return p.returncode
     p = subprocess.run([binary(cfg), "replay", "--file", path, "--prop", prop], env=env())
     if p.returncode == 3 or p.returncode < 0:
         print("the harness process crashed (fatal signal) while executing this case")
